@@ -636,13 +636,16 @@ Fixpoint res_check (n : nat) (fuel : nat) (nw : Z) (i : nat) (w : fw) : fw :=
 (** get_work_order_cost as the scripted processors answer it: a surcharge (their work-order duration) while they are shut down,
     so that the answer depends on WHEN the maintainer asks (it asks before it starts the work) *)
 Definition wo_cost_now (x : dev) : Z := if d_shut x then d_wo_cost x + d_wo_dur x else d_wo_cost x.
+(** ... and so is the duration: the scripted processors report [d_wo_dur], plus 8 ticks when they are already shut down; what counts is
+    the answer at the start of the order, before [start_work] shuts the target down *)
+Definition wo_dur_now (x : dev) : Z := if d_shut x then d_wo_dur x + 8 else d_wo_dur x.
 
 Definition maint_start (nw : Z) (mid : Z) (wo : worder) (w : fw) : fw :=
   let t := wo_target wo in
   let x := getd w t in
   let w1 := maint_call w mid (m_start_pre nw wo (wo_cost_now x)) in
   let w2 := shutdown nw false (-1) w1 t in
-  maint_call w2 mid (m_start_post nw wo (d_wo_dur x)).
+  maint_call w2 mid (m_start_post nw wo (wo_dur_now x)).
 
 Definition maint_finish (fuel : nat) (nw : Z) (mid : Z) (wo : worder) (w : fw) : fw :=
   let w1 := restore fuel nw w (wo_target wo) in
